@@ -255,6 +255,8 @@ def _dec_const(c, S):
             c["static"] = S[c["static"]]
         if "item" in c:
             c["item"] = S[c["item"]]
+            if "promoted" in c:
+                c["item"] = "%s::promoted[%d]" % (c["item"], c["promoted"])
 
 
 def _dec_op(o, S):
